@@ -8,6 +8,8 @@ A harness function
 An obligation (`Ob`) = harness function x case, with an expected verdict:
   expect="confirm": CrossHair must exhaust the path tree (Confirmed over all paths)
   expect="refute" : reachability twin - CrossHair must produce a witness (guards vacuity)
+An obligation with smt="<generator>" is decided by direct z3 queries built from the real code by that generator (used for
+regular-language inclusions, which need no length bound); its `fn` is the concrete replay predicate for z3's models.
 """
 import json
 import os
@@ -29,7 +31,7 @@ def setup(shim=False, ext=True):
 
 class Ob:
     def __init__(self, id, fn, cases=None, expect="confirm", timeout=120, tiers=("quick", "thorough"),
-                 bound="", path_timeout=None):
+                 bound="", path_timeout=None, smt=None):
         self.id = id                  # e.g. "C01.te_decision"
         self.fn = fn                  # function name in the harness module
         self.cases = cases if cases is not None else [{}]
@@ -38,6 +40,9 @@ class Ob:
         self.tiers = tiers
         self.bound = bound            # human-readable bound statement for evidence
         self.path_timeout = path_timeout
+        # smt: name of a generator function in the harness module that builds direct z3 queries from the real code
+        # (engine/regex_smt.py) instead of a CrossHair run; `fn` is then the concrete replay predicate for its models
+        self.smt = smt
 
 
 _KF = None
